@@ -29,7 +29,7 @@ func (s TreeSpec) Tree() Tree {
 	return t
 }
 
-var nameComponents = []string{"a", "b", "c", "dir", "sub dir", "ünï", "x.y", ".hidden", "trailing.", "bundle.yaml", "名前", "a-b", "A", "data_1", "é", "f.txt", "..x"}
+var nameComponents = []string{"a", "b", "c", "dir", "sub dir", "ünï", "x.y", ".hidden", "trailing.", "bundle.yaml", "名前", "a-b", "A", "data_1", "é", "f.txt", "..x", " lead", "trail ", "tab\t", "\u00a0nb", "\u3000wide\u3000"}
 
 // Decoys are paths that look like (or are) generated paths
 var Decoys = []string{".datamon/x", ".datamon/deep/y.yaml", ".conflicts/s/p", ".checkpoints", ".checkpoints/c/q", "a/.datamon/x", ".datamonx", "x.datamon", "dir/.conflicts/z", ".Conflicts/u",
